@@ -62,6 +62,10 @@ def run(c):
         "usage); the ground truth of the bad-path chains (P, Q, T, N, K, H, Y) is how they were built, self-checked per anchor against "
         "crypto/x509; the model asks its X.509 parameter one question (C13_one_x509_verdict_decides) and refuses on a negative answer "
         "(C13_invalid_path_refused)",
+        "a leaf without a subjectAltName DNS name (Common Name only — for another host or for the MX host itself — or an IP address only; "
+        "chains V, U, Z, properly issued under the intermediate and root the DANE-TA records pin) is a certificate for NO host name, as "
+        "crypto/x509 has it (the Common Name is not read); ground truth by construction, self-checked per anchor against crypto/x509 with the "
+        "MX host name as the reference identifier; with no reference identifier the same chains do verify (vBitsNone)",
         "resolver ops: the miekg/dns client and wire format are primitives (Transport parameter of the model; the tree's is plain UDP without "
         "TCP fall-back); which configured address is a loopback address is known by construction (127.0.0.1, 127.0.0.2: yes; 0.0.0.0: no)",
     ]
@@ -103,6 +107,9 @@ def run(c):
         "intermediate and the root with the same subject and key) x every record type in verify, every usable DANE-TA form pinning the "
         "intermediate or the root of the chain (alone, in pairs, next to unusable / non-matching records) in verify, check, conn and attempt "
         "(client trusting no CA / the roots / the system store). "
+        "Leaves without a subjectAltName DNS name issued under the pinned CA (V: Common Name of another customer's host, U: Common Name = MX host, "
+        "Z: IP-address subjectAltName only) x every record type in verify, every usable DANE-TA form pinning the intermediate or the root (alone, in "
+        "pairs, next to unusable / non-matching records) in verify, check, conn and attempt, like the bad-path chains. "
         "Each op runs the real function and the Lean model (primitive results shipped as tables); distinct = distinct op lines",
         explanation="theorems for all record lists, chains, handshake histories and primitive behaviours; model tied to dane.go/security.go/"
         "connect.go/dnssec.go by differential runs; "
